@@ -219,7 +219,7 @@ pub fn replay(o: &Opts) -> Value {
                             }
                         }
                         // ---- C06 / C19: deserializing gives the value back, whatever the options
-                        if rt && !model_fail && root.is_none() {
+                        if rt && !model_fail && root.is_none() && !ty.starts_with('H') {
                             let d = de_str(ty, &doc);
                             runs += 1;
                             match de_eq(ty, &doc, &v) {
